@@ -123,6 +123,15 @@ func c05(c *Ctx) (*report.Result, error) {
 	res := newResult("C05")
 	res.RuleDoc["O5.1"] = "index discipline: every element access of proxyIDRingBuffer.entries uses (head + k) % len(entries) with the length read from the very slice that is indexed and nothing in between that can replace it"
 	res.RuleDoc["O5.2"] = "growth preserves order: ensureCapacity copies entry (head+i)%len to position i of the new slice for every i < size, and every path that replaces entries resets head to 0; Append ensures capacity before every element store"
+	res.RuleDoc["O5.5"] = "nothing is discarded that was not translated: the only callers of the ring's mutators are the reviewed ones (Append from sendReplicationMessages, Discard from recvAck) and recvAck discards exactly the count AggregateUpTo returned for that acknowledgement (same analysis as O1.3) - an entry appended between the aggregation and the discard must survive"
+	checkRingCallers(c, res, "O5.5")
+	if g := resolve(c, res, "O5.5", anchor{"proxy", "*proxyStreamSender", "recvAck"}); g != nil {
+		tmp := newResult("C05")
+		checkRecvAckDiscard(c, tmp, g)
+		importObligations(res, tmp, "O5.5", func(o report.Obligation) bool {
+			return strings.Contains(o.Construct, "Discard") || strings.Contains(o.Construct, "discarded")
+		})
+	}
 	res.RuleDoc["O5.4"] = "translation is the largest covered original id: AggregateUpTo's per-shard value is a MAX reduction over the entries it covers and only hole entries are skipped (same analysis as O1.2) - original ids of one shard need not increase with the proxy id (a re-sent older task, a lower watermark-only entry)"
 	if g := resolve(c, res, "O5.4", anchor{"proxy", "*proxyIDRingBuffer", "AggregateUpTo"}); g != nil {
 		checkAggregateMax(c, res, g, "O5.4")
@@ -609,4 +618,58 @@ func twoSegmentCopy(f *ssa.Function, mk *ssa.MakeSlice) (bool, string) {
 		return false, "the wrapped segment is not placed at offset len(entries)-head"
 	}
 	return true, ""
+}
+
+// checkRingCallers: who-may-call inventory of the ring's mutating methods (and who-may-write of its cursors).
+func checkRingCallers(c *Ctx, res *report.Result, rule string) {
+	allowedCallers := map[string]map[string]bool{
+		"Append":         {"sendReplicationMessages": true},
+		"Discard":        {"recvAck": true},
+		"ensureCapacity": {"Append": true},
+	}
+	sp, err := c.Prog.SSAPkg("proxy")
+	if err != nil {
+		res.Undec(rule, "proxy package", "", err.Error())
+		return
+	}
+	n := 0
+	for _, f := range c.Prog.RepoFuncs() {
+		if f.Package() != sp || !isShippedFunc(f) {
+			continue
+		}
+		for _, call := range flow.Calls(f) {
+			cal := flow.StaticCallee(call.Common())
+			if cal == nil || cal.Signature.Recv() == nil || !flow.NamedIs(cal.Signature.Recv().Type(), proxyPkg, "proxyIDRingBuffer") {
+				continue
+			}
+			ok, tracked := allowedCallers[cal.Name()]
+			if !tracked {
+				continue
+			}
+			n++
+			res.Check(ok[f.Name()], rule, fmt.Sprintf("%s is called only from its reviewed caller (site in %s)", cal.Name(), shortFn(f)), instrPos(c.Prog, call), "reviewed", "the ring's "+cal.Name()+" is called from "+shortFn(f)+", which is not the reviewed caller: entries can be added or removed outside the translate-then-discard protocol of recvAck")
+		}
+		// writes of the cursors outside the ring's own methods
+		if f.Signature.Recv() == nil || !flow.NamedIs(f.Signature.Recv().Type(), proxyPkg, "proxyIDRingBuffer") {
+			for _, b := range f.Blocks {
+				for _, ins := range b.Instrs {
+					st, isSt := ins.(*ssa.Store)
+					if !isSt {
+						continue
+					}
+					fa, isFA := st.Addr.(*ssa.FieldAddr)
+					if !isFA || !flow.NamedIs(fa.X.Type(), proxyPkg, "proxyIDRingBuffer") {
+						continue
+					}
+					if _, fresh := fa.X.(*ssa.Alloc); fresh {
+						continue
+					}
+					res.Viol(rule, shortFn(f)+": writes proxyIDRingBuffer."+flow.FieldName(fa.X.Type(), fa.Field), instrPos(c.Prog, st), "the ring's cursor/storage is written outside the ring's own methods")
+				}
+			}
+		}
+	}
+	if n < 4 {
+		res.Undec(rule, "callers of the ring's mutators", "", fmt.Sprintf("%d call sites found, 5 confirmed by hand", n))
+	}
 }
